@@ -23,7 +23,9 @@ from .c06 import form_key, roundtrip, dom
 LEAVES = [">=1.0", ">1.0", "<2.0", "<=2.0", "==1.5", "!=1.5", "~=1.4", "~=1.4.2", "==1.*", "!=1.*", "==1.4.*", "!=1.4.*",
           ">=1.0,<2.0", ">1.4,!=1.5,<3", ">1.0a1", "<2.0.post1", ">=1.4.dev1", "<1.5rc1", ">=1!0.5", "<1!1", "==1.5.0", "===1.5", "===1.5.0",
           # multi-range unions whose outermost bounds coincide (with the other inclusivity) with bounds of other leaves
-          ">=1.0,<1.4||>=1.5,<=2.0", "<1.0||==1.5||>2.0", ">1.0,<=1.4||>=2.0", "<=1.0||>=1.4.2,<1.5||>=3.0"]
+          ">=1.0,<1.4||>=1.5,<=2.0", "<1.0||==1.5||>2.0", ">1.0,<=1.4||>=2.0", "<=1.0||>=1.4.2,<1.5||>=3.0",
+          # upper bounds with more release segments than the lower one, zero then non-zero (where a `~=` shortening must not fire)
+          "<2.0.1", ">=1.4", "<1.5.0.5", ">=1.4.2,<1.5.0.1"]
 CANDS = ["0.9", "1.0", "1.0.1", "1.4", "1.4.2", "1.4.3", "1.5", "1.5.0", "1.5.1", "1.9", "2.0", "2.0.1", "3.0", "1!0.5", "1!1.0"]
 
 
